@@ -152,6 +152,12 @@ def _conn(rng, label, line, tls, hv):
                       for kv in HEADER_VARIANTS[hv]) + "\r\n"
     raw = (data + hdr).encode("utf-8", "surrogateescape").decode("latin-1")
     segs, delays = _plan(rng, len(raw) + (13 if tls else 0))
+    nline = len(data.encode("utf-8", "surrogateescape")) + (13 if tls else 0)
+    if rng.random() < 0.06 and nline > 3:
+        # the client pauses for longer than the server's timeout in the middle of its first line
+        cut = rng.randrange(2, nline)
+        segs = [cut]
+        delays = [0.0, rng.choice([61.0, 75.0, 200.0])]
     return {"label": label, "line": line, "eol": eol, "tls": tls, "hv": hv, "raw": raw,
             "segments": segs, "delays": delays, "half_close": rng.random() < 0.8}
 
@@ -274,6 +280,20 @@ def execute(sc, tape=None):
                     break
                 if first == b"\x16" and sc["context"] and not cn["tls"]:
                     continue   # a broken TLS handshake: there is no request line to classify
+                nline_b = (raw.index(b"\n") + 1 if b"\n" in raw else len(raw)) + (13 if cn["tls"] else 0)
+                stalled_in_line = any(d > 60.0 for d in cn["delays"][1:]) and cn["segments"] and \
+                    cn["segments"][0] < nline_b
+                if stalled_in_line:
+                    counters["stalled_inside_first_line"] = counters.get("stalled_inside_first_line", 0) + 1
+                    if not pcs:
+                        # the request line did not arrive within the timeout: no protocol may answer a fragment;
+                        # dropping the connection is the right outcome
+                        if bytes(c.s2c):
+                            viol = {"oracle": "fragment-not-answered",
+                                    "signature": dict(sig, oracle="fragment-not-answered"),
+                                    "detail": "no protocol was selected for %r, yet %r was sent" % (raw[:60], bytes(c.s2c)[:60])}
+                            break
+                        continue
                 if not pcs:
                     viol = {"oracle": "protocol-selected", "signature": dict(sig, oracle="protocol-selected"),
                             "detail": "no getProtocol call for %r; handle_error=%r state=%s" % (raw[:60], hes[:1], st)}
